@@ -81,6 +81,15 @@ func (f *Fact) Sum(xs ...int64) int64 {
 	return s
 }
 
+// Join is variadic over strings.
+func (f *Fact) Join(xs ...string) string {
+	s := ""
+	for _, x := range xs {
+		s += x
+	}
+	return s
+}
+
 // Boom panics for one argument value.
 func (f *Fact) Boom(k int64) int64 {
 	if k == f.PanicAt {
@@ -179,4 +188,27 @@ func snapFact(f *Fact, n int64) factSnap {
 	s.mc, s.hasC = f.M["c"]
 	s.pi = *f.PI
 	return s
+}
+
+// copyFact returns an independent deep copy (same symbolic values, separate cells).
+func copyFact(f *Fact) *Fact {
+	g := *f
+	if f.P != nil {
+		p := *f.P
+		g.P = &p
+	}
+	if f.Q != nil {
+		q := *f.Q
+		g.Q = &q
+	}
+	g.Arr = append([]int64{}, f.Arr...)
+	g.FA = append([]float64{}, f.FA...)
+	g.M = map[string]int64{}
+	for k, v := range f.M {
+		g.M[k] = v
+	}
+	pi := *f.PI
+	g.PI = &pi
+	g.Log = nil
+	return &g
 }
